@@ -398,7 +398,7 @@ void op_clear(const Step& s) {
 // ----------------------------------------------------------------- views (C12)
 void finish_iter(IterH& it, const std::string& site) {
 	api_end();
-	it.done = true; count(c_oracle_evals);
+	it.done = true; if (!armed("C12")) return; count(c_oracle_evals);
 	std::set<Rule> seen;
 	for (const Rule& r : it.yielded) {
 		if (!seen.insert(r).second) { TA t; t.rules.insert(r); violation("C12.view-yields-each-rule-once", site, "rule yielded twice:" + mdl::to_lit(t).substr(1)); }
@@ -428,7 +428,7 @@ void op_it_begin(const Step& s) {
 		it.dit.reset(new ET::DownAccessor::Iterator(it.down->begin())); it.dend.reset(new ET::DownAccessor::Iterator(it.down->end()));
 		for (const Rule& r : h.model.rules) if (r.parent == q) it.expect.insert(r);
 		count(c_oracle_evals);
-		if (it.down->empty() != it.expect.empty()) violation("C12.view-equals-model", "it_begin:down-empty", "DownAccessor::empty() disagrees with the model for state " + std::to_string(q));
+		if (armed("C12") && it.down->empty() != it.expect.empty()) violation("C12.view-equals-model", "it_begin:down-empty", "DownAccessor::empty() disagrees with the model for state " + std::to_string(q));
 	}
 	c.iters.push_back(std::move(it));
 }
@@ -442,7 +442,7 @@ void op_it_next(const Step& s) {
 	for (long k = 0; k < n && !it.done; ++k) {
 		count(c_iter_steps);
 		// a client loop may test for the end with either comparison: both are evaluated and must be complementary
-		auto at_end = [&](bool eq, bool ne, const char* site) { if (eq == ne) violation("C12.iterator-comparison", site, std::string("operator== and operator!= of a view iterator both say ") + (eq ? "true" : "false") + " after " + std::to_string(it.yielded.size()) + " rules"); return ((k + s.arg(0)) & 1) ? eq : !ne; };
+		auto at_end = [&](bool eq, bool ne, const char* site) { if (eq == ne && armed("C12")) violation("C12.iterator-comparison", site, std::string("operator== and operator!= of a view iterator both say ") + (eq ? "true" : "false") + " after " + std::to_string(it.yielded.size()) + " rules"); return ((k + s.arg(0)) & 1) ? eq : !ne; };
 		if (it.kind == 0) {
 			if (at_end(*it.it == *it.end, *it.it != *it.end, "it_next:all")) { finish_iter(it, "it_next:all"); break; }
 			it.yielded.insert(to_rule(*it.aut, **it.it)); ++(*it.it);
@@ -453,7 +453,8 @@ void op_it_next(const Step& s) {
 			if (at_end(*it.dit == *it.dend, *it.dit != *it.dend, "it_next:down")) { finish_iter(it, "it_next:down"); break; }
 			it.yielded.insert(to_rule(*it.aut, **it.dit)); ++(*it.dit);
 		}
-		if (it.yielded.size() > it.expect.size() + 64) violation("C12.view-terminates", "it_next", "view yielded far more rules than exist");
+		if (it.yielded.size() > it.expect.size() + 64) { if (armed("C12")) violation("C12.view-terminates", "it_next", "view yielded far more rules than exist"); it.done = true; break; }
+		if (false) violation("C12.view-terminates", "it_next", "view yielded far more rules than exist");
 	}
 }
 
@@ -480,7 +481,10 @@ void op_it_drop(const Step& s) {
 // all read-only observers of one handle against its model
 void op_observe(const Step& s) {
 	ETH& h = H(s, 0); Rng r(uint64_t(s.arg(1)) + 3);
-	const std::string P = armed("C12") ? "C12" : g_profile;
+	// the observers are C12's subject: they are judged in C12 runs only; elsewhere they are merely called (read-only calls between
+	// mutations are part of the histories: AreTransitionsEmpty once un-shared storage, see DESIGN 5.1)
+	const std::string P = "C12"; const bool judged = armed("C12");
+	auto violation = [&](const std::string& o, const std::string& si, const std::string& d) { if (judged) vsim::violation(o, si, d); };
 	api_begin();
 	count(c_oracle_evals);
 	bool dup = false; TA got = read_back(*h.aut, &dup);
@@ -588,16 +592,18 @@ void op_union(const Step& s) {
 			count(c_oracle_evals);
 			std::map<long, long> x1, x2; for (auto& kv : m1) x1[long(kv.first)] = long(kv.second); for (auto& kv : m2) x2[long(kv.first)] = long(kv.second);
 			// every state of the result is named by the maps, and stands for exactly one operand state ...
-			std::map<long, std::pair<int, long>> inv; bool inj = true;
-			for (auto& kv : x1) if (ma.states().count(kv.first) && !inv.insert(std::make_pair(kv.second, std::make_pair(1, kv.first))).second) inj = false;
-			for (auto& kv : x2) if (mb.states().count(kv.first) && !inv.insert(std::make_pair(kv.second, std::make_pair(2, kv.first))).second) inj = false;
-			if (!inj) violation("C02.union-map", "et_union", "two operand states are mapped to the same result state");
+			// every state of the result is named by the maps; a result state may stand for several operand states (an implementation
+			// is free to merge), but then it must accept, as a root, what each of them accepts
+			std::map<long, std::vector<std::pair<int, long>>> inv;
+			for (auto& kv : x1) if (ma.states().count(kv.first)) inv[kv.second].push_back(std::make_pair(1, kv.first));
+			for (auto& kv : x2) if (mb.states().count(kv.first)) inv[kv.second].push_back(std::make_pair(2, kv.first));
 			for (long q : got.states()) if (!inv.count(q)) violation("C02.union-map", "et_union", "result state " + std::to_string(q) + " is not named by the reported maps");
-			// ... in the sense that it accepts (as a root) what that operand state accepts
 			if (got.states().size() <= 10) for (long q : got.states()) {
 				auto it = inv.find(q); if (it == inv.end()) continue;
-				TA r1 = got; r1.finals = {q}; TA o1 = it->second.first == 1 ? ma : mb; o1.finals = {it->second.second};
-				if (mdl::equiv(r1, o1, 6000) == 0) violation("C02.union-map", "et_union", "result state " + std::to_string(q) + " does not accept what the operand state it is reported to stand for (" + std::to_string(it->second.second) + ") accepts");
+				for (auto& who : it->second) {
+					TA r1 = got; r1.finals = {q}; TA o1 = who.first == 1 ? ma : mb; o1.finals = {who.second};
+					if (mdl::equiv(r1, o1, 6000) == 0) violation("C02.union-map", "et_union", "result state " + std::to_string(q) + " does not accept what the operand state it is reported to stand for (" + std::to_string(who.second) + " of the " + (who.first == 1 ? "left" : "right") + " operand) accepts");
+				}
 			}
 		}
 		check_operands_unchanged(s, a, &b, "C02");
@@ -643,18 +649,19 @@ void op_union_disj(const Step& s) {
 
 void check_product_map(const std::string& site, const TA& ma, const TA& mb, const TA& got, const VATA::AutBase::ProductTranslMap& pm) {
 	count(c_oracle_evals);
-	std::map<long, std::pair<long, long>> inv;
-	for (auto& kv : pm) {
-		if (!inv.insert(std::make_pair(long(kv.second), std::make_pair(long(kv.first.first), long(kv.first.second)))).second)
-			violation("C02.product-map", site, "two state pairs are mapped to result state " + std::to_string(kv.second));
-	}
+	// a result state may be named by several entries (a map reused across calls keeps the entries of earlier calls): every entry whose
+	// pair consists of states of these operands is a claim about what the state stands for, and is judged as such
+	std::map<long, std::vector<std::pair<long, long>>> inv; std::set<long> sa = ma.states(), sb = mb.states();
+	for (auto& kv : pm) if (sa.count(long(kv.first.first)) && sb.count(long(kv.first.second))) inv[long(kv.second)].push_back(std::make_pair(long(kv.first.first), long(kv.first.second)));
 	for (long q : got.states()) if (!inv.count(q)) violation("C02.product-map", site, "result state " + std::to_string(q) + " does not occur in the reported map");
 	// each result state accepts (as a root) exactly what both components of the pair it stands for accept
 	if (got.states().size() <= 10) for (long q : got.states()) {
 		auto it = inv.find(q); if (it == inv.end()) continue;
-		TA r1 = got; r1.finals = {q}; TA o1 = ma, o2 = mb; o1.finals = {it->second.first}; o2.finals = {it->second.second};
-		if (mdl::equiv(r1, mdl::isect(o1, o2), 6000) == 0)
-			violation("C02.product-map", site, "result state " + std::to_string(q) + " does not accept the intersection of what the pair it is reported to stand for (" + std::to_string(it->second.first) + "," + std::to_string(it->second.second) + ") accepts");
+		for (auto& pr : it->second) {
+			TA r1 = got; r1.finals = {q}; TA o1 = ma, o2 = mb; o1.finals = {pr.first}; o2.finals = {pr.second};
+			if (mdl::equiv(r1, mdl::isect(o1, o2), 6000) == 0)
+				violation("C02.product-map", site, "result state " + std::to_string(q) + " does not accept the intersection of what the pair it is reported to stand for (" + std::to_string(pr.first) + "," + std::to_string(pr.second) + ") accepts");
+		}
 	}
 }
 
@@ -768,14 +775,16 @@ void op_reduce(const Step& s) {
 		TA got = read_back(r); count(c_oracle_evals);
 		if (got.states().size() > ma.states().size()) violation("C05.reduce-size", "et_reduce", "Reduce returned more states than the input has");
 		if (got.rules.size() > ma.rules.size()) violation("C05.reduce-size", "et_reduce", "Reduce returned more rules than the input has");
-		std::set<long> sa = ma.states();
-		for (long q : got.states()) if (!sa.count(q)) violation("C05.reduce-image", "et_reduce", "result state " + std::to_string(q) + " is not (the representative of) a state of the input");
-		{
-			// every state of the result is the image of a state of A under ONE map that sends simulation-equivalent
-			// states to one representative: two result states of the same equivalence class cannot both be images
-			mdl::Rel R = mdl::down_sim(ma); std::set<long> gs = got.states();
-			for (long q : gs) for (long p : gs) if (q < p && sa.count(q) && sa.count(p) && R.count(std::make_pair(q, p)) && R.count(std::make_pair(p, q)))
-				violation("C05.reduce-image", "et_reduce", "result states " + std::to_string(q) + " and " + std::to_string(p) + " are simulation-equivalent in the input: they cannot both be images under the quotient map\n  input : " + mdl::to_lit(ma) + "\n  result: " + mdl::to_lit(got));
+		if (ma.states().size() <= 10) {
+			// "every state [of the result] is the image of at least one state of A": judged semantically, so that neither
+			// the numbering of the result nor the equivalence that is quotiented matters -- a result state stands for a
+			// state of A iff it accepts, as a root, exactly what that state accepts in A
+			for (long q : got.states()) {
+				TA gq = got; gq.finals = {q}; bool found = false, undecided = false;
+				for (long p : ma.states()) { TA ap = ma; ap.finals = {p}; int e = mdl::equiv(gq, ap, 6000); if (e == 1) { found = true; break; } if (e < 0) undecided = true; }
+				count(c_oracle_evals);
+				if (!found && !undecided) violation("C05.reduce-image", "et_reduce", "result state " + std::to_string(q) + " stands for no state of the input: no state of the input accepts, as a root, what it accepts in the result\n  input : " + mdl::to_lit(ma) + "\n  result: " + mdl::to_lit(got));
+			}
 		}
 		{
 			// exact language equality where the reference procedure finishes within its work bound; otherwise sampled
@@ -823,9 +832,10 @@ void op_complement(const Step& s) {
 		TA got; auto bt = a.aut->GetAlphabet()->GetSymbolBackTransl();
 		for (const ET::Transition& t : r) {
 			Rule x; x.parent = long(t.GetParent()); for (StateType c : t.GetChildren()) x.ch.push_back(long(c));
-			try { ET::StringRank sr = (*bt)(t.GetSymbol()); x.sym = sr.symbolStr;
-				if (sr.rank != x.ch.size()) violation("C06.complement-alphabet", "et_complement", "a rule of the complement uses symbol " + sr.symbolStr + " with the wrong rank"); }
-			catch (const std::exception&) { violation("C06.complement-alphabet", "et_complement", "a rule of the complement uses a symbol number unknown to the alphabet"); return; }
+			// a symbol number the alphabet does not know, or one used with another rank, is a symbol outside S; whether that matters
+			// is decided on trees (is_complement looks at the rules that take part in an accepting run)
+			try { ET::StringRank sr = (*bt)(t.GetSymbol()); x.sym = sr.rank == x.ch.size() ? sr.symbolStr : sr.symbolStr + "?rank" + std::to_string(sr.rank); }
+			catch (const std::exception&) { x.sym = "?unknown" + std::to_string(size_t(t.GetSymbol())); }
 			got.rules.insert(x);
 		}
 		for (StateType f : r.GetFinalStates()) got.finals.insert(long(f));
@@ -911,8 +921,8 @@ void op_reindex(const Step& s) {
 		if (armed("C14")) {
 			std::map<long, long> m; for (auto& kv : sm) m[long(kv.first)] = long(kv.second);
 			count(c_oracle_evals);
+			// the translator is the map the result is the image under: it must know every occurring state (more entries do no harm)
 			for (long q : ma.states()) if (!m.count(q)) violation("C14.translator", "et_reindex:weak", "weak translator has no entry for state " + std::to_string(q) + " after the call");
-			if (m.size() != ma.states().size()) violation("C14.translator", "et_reindex:weak", "weak translator holds entries for states that do not occur");
 			check_image(s, ma, TA(), read_back(res), m, true, "et_reindex:weak");
 			check_operands_unchanged(s, a, nullptr, "C14");
 			note_ta_case(ma, nullptr, 11);
@@ -1014,6 +1024,7 @@ void op_sim(const Step& s) {
 	if (up) {
 		// upward simulation is specified for automata without useless states
 		work.reset(new ET(a.aut->RemoveUselessStates())); wm = read_back(*work);
+		if (armed("C04") && !(mdl::trim_useless(wm) == wm)) { api_end(); throw Skip(); }      // the preparation failed to establish C04's precondition: that is C03's business, not a simulation defect
 	} else work.reset(new ET(*a.aut));
 	// dense numbering 0..n-1 of the occurring states: either in visiting order (what the CLI does) or a drawn bijection
 	std::map<long, long> m; ET dense;
@@ -1027,6 +1038,7 @@ void op_sim(const Step& s) {
 		dense = work->ReindexStates(f);
 	}
 	TA dm = mdl::rename(wm, m); size_t n = dm.states().size();
+	if (armed("C04")) { TA seen = read_back(dense); if (!(seen == dm)) { api_end(); throw Skip(); } }      // the automaton the simulation is computed on must be the one the oracle judges (renaming is C14's business)
 	if (n == 0) throw Skip();
 	VATA::SimParam sp; sp.SetNumStates(n);
 	sp.SetRelation(up ? VATA::SimParam::e_sim_relation::TA_UPWARD : VATA::SimParam::e_sim_relation::TA_DOWNWARD);
@@ -1088,6 +1100,7 @@ int run_incl(const ET& a, const ET& b, long sel, long via) {
 		Arguments args; args.options = o;
 		return ::CheckInclusion<ET>(a, b, args) ? 1 : 0;     // cli/operations.hh: sanitise, union, simulation, check
 	} catch (const VATA::NotImplementedException&) { count(c_notimpl_thrown); return 2; }
+	catch (const std::exception&) { if (sel < 8) throw; count(c_notimpl_thrown); return 2; }      // a selection outside the eight of C01 may be refused with any exception
 }
 
 void op_incl(const Step& s) {
@@ -1104,7 +1117,10 @@ void op_incl(const Step& s) {
 	if (armed("C01")) {
 		count(c_oracle_evals);
 		if (sel >= 8) {
-			if (v != 2) violation("C01.unimplemented-selection", site, "an unimplemented parameter selection returned a verdict instead of throwing NotImplementedException");
+			// outside the eight selections C01 quantifies over: refusing is fine, and so is a verdict -- but "returns true exactly when"
+			// is unconditional: a verdict that is returned must be the right one
+			int want = v == 2 ? -1 : mdl::incl(a.model, b.model);
+			if (want >= 0 && v != want) violation("C01.verdict", site, std::string("a selection outside the implemented eight returned the verdict ") + (v ? "true" : "false") + " but the reference says " + (want ? "included" : "not included") + "\n  smaller: " + mdl::to_lit(a.model) + "\n  bigger : " + mdl::to_lit(b.model));
 		} else {
 			if (v == 2) violation("C01.implemented-selection", site, "an implemented parameter selection threw NotImplementedException");
 			int want = mdl::incl(a.model, b.model);
@@ -1135,6 +1151,7 @@ void op_incl_all(const Step& s) {
 		api_site(site, incl_budget_policy(sel), incl_budget(sel));
 		int v = run_incl(*a.aut, *b.aut, sel, via);
 		observe(uint64_t(v));
+		if (!armed("C01")) continue;
 		count(c_oracle_evals);
 		if (v == 2) { violation("C01.implemented-selection", site, "an implemented parameter selection threw NotImplementedException"); continue; }
 		if (want >= 0) {
@@ -1145,6 +1162,7 @@ void op_incl_all(const Step& s) {
 		if (first < 0) { first = v; firstsel = sel; }
 		else if (v != first) violation("C01.selections-agree", site, std::string("selections disagree: ") + SEL_NAMES[firstsel] + " says " + std::to_string(first) + ", " + SEL_NAMES[sel] + " says " + std::to_string(v));
 	}
+	if (!armed("C01")) { api_end(); return; }
 	if (want >= 0) note_ta_case(a.model, &b.model, 39);
 	check_operands_unchanged(s, a, &b, "C01");
 }
@@ -1175,8 +1193,8 @@ void op_repeat(const Step& s) {
 		return;
 	}
 	if (d.what == "is_empty") v = a.IsLangEmpty();
-	else { ET b = build_from_model(d.b, d.alpha); v = run_incl(a, b, d.sel, d.via); }
-	count(c_repeat_checks); count(c_oracle_evals);
+	else { ET b = build_from_model(d.b, d.alpha); api_site("et_repeat:incl:" + std::string(SEL_NAMES[d.sel]), incl_budget_policy(d.sel), incl_budget(d.sel)); v = run_incl(a, b, d.sel, d.via); }
+	api_end(); count(c_repeat_checks); count(c_oracle_evals);
 	if (v != d.result) violation(g_profile + ".result-depends-only-on-operands", "et_repeat:" + d.what + (d.what == "incl" ? std::string(":") + SEL_NAMES[d.sel] : std::string()),
 		"the same operation on equal operands returned " + std::to_string(d.result) + " earlier and " + std::to_string(v) + " now\n  a: " + mdl::to_lit(d.a) + "\n  b: " + mdl::to_lit(d.b));
 }
